@@ -868,6 +868,11 @@ where
                 "Configuration changed"
             );
 
+            // The send buffer is sized after `max_packet_size`
+            if self.config.max_packet_size != config.max_packet_size {
+                self.send_buf = Vec::with_capacity(config.max_packet_size.get());
+            }
+
             self.config = config;
             Ok(())
         }
